@@ -6,6 +6,7 @@ package shard
 import (
 	"bufio"
 	"bytes"
+	"encoding/binary"
 	"encoding/json"
 	"fmt"
 	"os"
@@ -34,6 +35,16 @@ type Result struct {
 	Vios     []Vio            `json:"vios"`
 	Samples  []any            `json:"samples"`
 	Inconcl  []string         `json:"inconclusive"`
+	HashFile string           `json:"hash_file"` // optional: file of little-endian uint64 hashes of distinct cases (unioned by the parent, then removed)
+	hashes   map[uint64]struct{}
+}
+
+// Hash registers the hash of a distinct non-trivial case; the set is handed to the parent through a file.
+func (r *Result) Hash(h uint64) {
+	if r.hashes == nil {
+		r.hashes = map[uint64]struct{}{}
+	}
+	r.hashes[h] = struct{}{}
 }
 
 const marker = "SHARD-RESULT "
@@ -55,6 +66,17 @@ func Child() (idx, total int, part string, ok bool) {
 
 // Emit prints the child's result for the parent.
 func Emit(r *Result) {
+	if len(r.hashes) > 0 {
+		if f, err := os.CreateTemp("", "verif-hashes-*.bin"); err == nil {
+			buf := make([]byte, 0, 8*len(r.hashes))
+			for h := range r.hashes {
+				buf = binary.LittleEndian.AppendUint64(buf, h)
+			}
+			_, _ = f.Write(buf)
+			_ = f.Close()
+			r.HashFile = f.Name()
+		}
+	}
 	b, err := json.Marshal(r)
 	if err != nil {
 		fmt.Printf("SHARD-ERROR %v\n", err)
@@ -127,6 +149,14 @@ func Run(run *report.Run, childTest, part string, n int, timeout time.Duration, 
 				return
 			}
 			run.Eval(int(res.Evals))
+			if res.HashFile != "" {
+				if b, err := os.ReadFile(res.HashFile); err == nil {
+					for i := 0; i+8 <= len(b); i += 8 {
+						run.Distinct(binary.LittleEndian.Uint64(b[i:]))
+					}
+				}
+				_ = os.Remove(res.HashFile)
+			}
 			for _, c := range res.Classes {
 				classes[c] = struct{}{}
 			}
